@@ -77,7 +77,29 @@ def unit_list(flags, src=SRC):
             if extra not in text:
                 raise AnalysisBroken("%s no longer named in %s" % (extra, cm))
             units.append((d, p))
+    # unit groups that are not build targets (sources pasted into generated code): own flag set, sources of another directory
+    for d, extras in flags.get("extra_units", {}).items():
+        if d in flags["source_lists"]:
+            continue
+        cfg = flags["dirs"][d]
+        cm = os.path.join(src, cfg["listed_in"], "CMakeLists.txt")
+        text = _read(cm).decode() if os.path.exists(cm) else ""
+        for extra in extras:
+            p = os.path.join(src, cfg["src_dir"], extra)
+            if not os.path.exists(p):
+                raise AnalysisBroken("listed source missing: " + p)
+            if extra not in text:
+                raise AnalysisBroken("%s no longer named in %s" % (extra, cm))
+            units.append((d, p))
     return units
+
+
+def _python_include():
+    r = subprocess.run(["python3", "-c", "import sysconfig; print(sysconfig.get_paths()['include'])"], stdout=subprocess.PIPE, stderr=subprocess.PIPE)
+    inc = r.stdout.decode().strip()
+    if r.returncode != 0 or not os.path.exists(os.path.join(inc, "Python.h")):
+        raise AnalysisBroken("Python.h not found (needed to analyse the py_*.cxx runtime sources)")
+    return inc
 
 
 def tree_hash(src=SRC):
@@ -119,7 +141,12 @@ def unit_cmd(flags, d, path, scratch, out, src=SRC):
     args = [TOOL, "-o", out, "-root", src, "-root", scratch, path, "--"]
     args += flags["common"] + cfg["defs"]
     for inc in cfg["inc"]:
-        args.append("-I" + (scratch if inc == "@bison" else os.path.join(src, inc)))
+        if inc == "@stubs":
+            args.append("-I" + os.path.join(VERIF, "ivf", "stubs", "panda3d_runtime"))
+        else:
+            args.append("-I" + (scratch if inc == "@bison" else os.path.join(src, inc)))
+    for inc in cfg.get("isystem", []):
+        args += ["-isystem", _python_include() if inc == "@python" else inc]
     args += ["-resource-dir", flags["resource_dir"]]
     return args
 
